@@ -17,7 +17,7 @@ RULE = ("all layouts of 1..3 fields over the full field alphabet (BOOLEAN:1, BOO
         "value for length <= 8 (boundary set above / in 3+-field layouts), three initial frame contents; each evaluation "
         "reads the field and writes it, comparing the whole frame; plus two-write sequences on neighbouring fields; every "
         "layout is evaluated on a fresh map object, and every 1..2-field layout (thorough: +1 reduced field) again on a map "
-        "object that held one of four earlier layouts (64-bit, 1-bit, 24-bit mixed, 8 bytes) filled with FF and was cleared. "
+        "object (COB-ID rotating over unset / pre-defined / free 11-bit / 29-bit ids) that held one of four earlier layouts (64-bit, 1-bit, 24-bit mixed, 8 bytes) filled with FF and was cleared. "
         "non-trivial = distinct layouts containing a field that is not byte aligned or not a whole number of bytes")
 ASSUMPTIONS = [
     "frame = little-endian integer, bit 0 of byte 0 first; signed fields are two's complement and sign-extended on read",
@@ -36,6 +36,7 @@ FULL = [("BOOLEAN", 1), ("BOOLEAN", 8)] + [("UNSIGNED8", k) for k in range(1, 9)
        [(n, w) for n, (w, sg) in TYPES.items() if w > 8]
 REDUCED = [("BOOLEAN", 1), ("UNSIGNED8", 4), ("INTEGER8", 3), ("UNSIGNED8", 8), ("INTEGER16", 16)]
 INITS = (0x00, 0xFF, 0xA5)
+COBS = (None, 0x185, 0x6A5, 0x18FF0685, 0x7FF, 0x10000105, 0x205, 0x101, 0x57F, 0x1FFFFFFF, 0x080)
 PRIORS = ([("UNSIGNED64", 64)], [("BOOLEAN", 1)], [("UNSIGNED8", 3), ("INTEGER16", 16), ("UNSIGNED8", 5)],
           [("UNSIGNED8", 8)] * 8)
 
@@ -158,6 +159,11 @@ def eval_layout(layout, st, case, allvals, seq=True, prior=None):
     node, m0, idx = node_and_map()
     # a fresh map object per evaluation (self-contained); histories on one object are the explicit "remap" part
     m = PdoMap(m0.pdo_node, m0.com_record, m0.map_array)
+    # configuration that is orthogonal to the bit arithmetic rotates with the layout: the map's COB-ID (unset, pre-defined
+    # set, free 11-bit ranges, 29-bit) and enabled flag
+    rot = sum(ln * (k + 3) for k, (nm, ln) in enumerate(layout)) + len(layout)
+    m.cob_id = COBS[rot % len(COBS)]
+    m.enabled = bool(rot % 2)
     if prior is not None:
         for name, length in prior:
             m.add_variable(idx[name], 0, length)
